@@ -4,8 +4,8 @@ OWNED: (regex on the clause key, [properties]) -- first match wins; obligations 
 property listed in their contract's `props`.
 """
 OWNED = [
-    (r"Sequence\.(enable_eom_mode|disable_eom_mode)/ensures\.(was-|in-eom-mode-afterwards)", ["C13", "C15"]),
-    (r"Sequence\.(enable_eom_mode|disable_eom_mode|modify_eom_setpoint)/", ["C15"]),
+    (r"Sequence\.(enable_eom_mode|disable_eom_mode|add_eom_pulse)/ensures\.(was-|in-eom-mode-afterwards|still-in-eom-mode)", ["C13", "C15"]),
+    (r"Sequence\.(enable_eom_mode|disable_eom_mode|modify_eom_setpoint|add_eom_pulse)/", ["C15"]),
     (r"Sequence\._add/ensures\.(assert:targets-share-one-reference|assert:phase-uses-some-target's-reference|phase-is-programmed-plus-reference|starts-after-latest-phase-shift-of-targets|targets-marked-used|post-phase-shift-applied|BRINV)", ["C07"]),
     (r"Sequence\._add/ensures\.(scheduled-duration-is-validated|accepted-unchanged-if-clock-multiple|within-limits-if-unchanged)", ["C01"]),
     (r"Sequence\._add/ensures\.appends-a-pulse-slot-on-the-same-targets", ["C02"]),
